@@ -1,11 +1,13 @@
 #!/usr/bin/env python3
-"""tools/keepseed.py <ID> <a|b> '<caught_by e.g. C01,C11>' '<not caught by (ran, stayed green)>' '<note>'
+"""[SEED_ROUND=2] tools/keepseed.py <ID> <a|b> '<caught_by e.g. C01,C11>' '<not caught by (ran, stayed green)>' '<note>'
 Copies a confirmed seeded change from /tmp/seed/out into /verif/seeded/<ID>-<x>/ with meta.json."""
 import json, os, shutil, sys, glob
 pid, x, caught, missed = sys.argv[1:5]
 note = sys.argv[5] if len(sys.argv) > 5 else ""
-src = "/tmp/seed/out/%s/%s" % (pid, x)
-dst = "/verif/seeded/%s-%s" % (pid, x)
+rnd = os.environ.get("SEED_ROUND", "1")  # SEED_ROUND=2: second round of seeded changes (/tmp/seed/out2), kept as <ID>-c / <ID>-d
+src = "/tmp/seed/out%s/%s/%s" % ("" if rnd == "1" else rnd, pid, x)
+name = x if rnd == "1" else {"a": "c", "b": "d"}[x]
+dst = "/verif/seeded/%s-%s" % (pid, name)
 os.makedirs(dst, exist_ok=True)
 for f in glob.glob(src + "/*"):
     if os.path.isfile(f) and os.path.getsize(f) < 400000 and not f.endswith("VERIFY.json"):
@@ -15,7 +17,7 @@ assert all(ver[k] for k in ("applies", "builds", "suite_passes_with_patch", "dem
 notes = open(src + "/NOTES.md").read() if os.path.exists(src + "/NOTES.md") else ""
 meta = {
     "property": pid,
-    "change": "%s-%s" % (pid, x),
+    "change": "%s-%s" % (pid, name),
     "breaks": notes[:1800],
     "confirmed": {"by": "independent re-run in a scratch worktree of /repo (patch applies, builds with and without -tags verif, baseline suite passes with the patch, demonstration fails with the patch and passes on HEAD)", "details": ver},
     "checks_run": {"how": "tools/seedtest.sh <patch> <IDs>: scratch worktree of /repo + scratch copy of /verif, quick tier, VERIF_SEED=1", "caught_by": [c for c in caught.split(",") if c], "ran_but_stayed_green": [c for c in missed.split(",") if c]},
